@@ -18,6 +18,7 @@ import json
 import math
 import os
 import random
+import re
 import signal
 import sys
 import time
@@ -714,6 +715,7 @@ class Clause:
         self.node = node
         self.items = []     # (code, text)
         self.label_code = None
+        self.on_raise = False   # ensures(..., on_raise=True): exceptional postcondition (native extension)
         self.exc = None
         self.when = None
         self.paths = []     # modifies: (root, [("f", name) | ("k", code)], text)
@@ -721,6 +723,11 @@ class Clause:
         kws = {k.arg: k.value for k in node.keywords}
         if "label" in kws:
             self.label_code = compile_expr(kws["label"], params, where)
+        if name == "ensures" and "on_raise" in kws:
+            try:
+                self.on_raise = bool(ast.literal_eval(kws["on_raise"]))
+            except Exception:
+                raise SkipContract(f"ensures(on_raise=...) must be a literal: {ast.unparse(kws['on_raise'])}")
         if name in ("ensures", "requires"):
             for a in node.args:
                 self.items.append((compile_expr(a, params, where), ast.unparse(a)))
@@ -877,8 +884,10 @@ class Checker:
             raise SkipContract("contract is marked native=False")
         for e in self.ns_errors:
             self.notes.append(e)
+        # variant contracts: "pkg.mod.func#tag" names another contract of the same real function
+        real_qualname = qualname.split("#", 1)[0]
         try:
-            tgt = resolve_target(qualname)
+            tgt = resolve_target(real_qualname)
         except LookupError as e:
             raise SkipContract(f"cannot resolve the function: {e}")
         where = f"{os.path.basename(c.path)}:{c.node.lineno}"
@@ -925,7 +934,9 @@ class Checker:
                 ptypes[p] = None
         hook = None
         if self.hooks is not None:
-            hook = getattr(self.hooks, "gen_" + qualname.replace(".", "_"), None)
+            # "gen_" + key with every non-word character replaced by "_"
+            # (aldy.genotype.genotype#no-data -> gen_aldy_genotype_genotype_no_data)
+            hook = getattr(self.hooks, "gen_" + re.sub(r"\W", "_", qualname), None)
         if hook is None:
             for p in c.params:
                 if ptypes[p] is None:
@@ -1145,6 +1156,16 @@ class Checker:
             raised = e
             tb = traceback.extract_tb(e.__traceback__)
             raised_at = f"{os.path.basename(tb[-1].filename)}:{tb[-1].lineno}" if tb else "?"
+        finally:
+            # optional post-call cleanup supplied by an input hook (e.g. restoring patched functions);
+            # runs whether the call returned, raised or timed out
+            for v in list(args.values()):
+                try:
+                    after = getattr(v, "__verif_after_call__", None)
+                    if after is not None:
+                        after()
+                except Exception:
+                    pass
 
         oc = res.setdefault("outcomes", {})
         key = "returned" if raised is None else f"raised {type(raised).__name__}"
@@ -1173,19 +1194,23 @@ class Checker:
             e.update(args)
             e.update(d.env)
             e["result"] = result
+            e["raised"] = raised   # the exception object (None on normal return); used by on_raise clauses
             e["__oldargs__"] = oldargs
             return e
 
         for d in deferred:
             cl = d.clause
-            if cl.name == "ensures" and raised is None:
+            # plain ensures: only on normal return; ensures(on_raise=True): only when the call raised
+            if cl.name == "ensures" and (raised is None) != cl.on_raise:
+                outcome = f"result = {_short(result, 300)}" if raised is None else \
+                    f"raised = {type(raised).__name__}: {str(raised)[:200]} (at {raised_at})"
                 for j, (code, text) in enumerate(cl.items):
                     name = f"post/{d.label}" + (f".{j}" if len(cl.items) > 1 else "")
                     res["clauses_checked"] += 1
                     case.last_witness = None
                     try:
                         ok = eval(code, post_env(d))
-                        detail = f"clause is false; result = {_short(result, 300)}"
+                        detail = f"clause is false; {outcome}"
                         if not ok and case.last_witness:
                             detail += f"; quantifier witness {case.last_witness[1]!r} for body {case.last_witness[0]!r}"
                     except NotImplementedError as e:
@@ -1196,7 +1221,7 @@ class Checker:
                         raise
                     except Exception as e:
                         ok = False
-                        detail = f"evaluating the clause raised {type(e).__name__}: {e}; result = {_short(result, 300)}"
+                        detail = f"evaluating the clause raised {type(e).__name__}: {e}; {outcome}"
                     if not ok:
                         self._violation(violations, name, text, pre_args, detail, ci)
             elif cl.name == "shares" and raised is None:
